@@ -50,7 +50,8 @@ let run (args : String.t list) =
              let pre = match as_path_prepend four w (n_of_int (int_of_string asn)) (nat_of_int (int_of_string n)) with
                | Ok w' -> (match wire_hops true w' with Ok h' -> hops_s h' | _ -> "?")
                | _ -> "PANIC" in
-             Printf.printf "WIRE %s hops=%s back=%s backhops=%s pre=%s\n" id (hops_s hs) back backhops pre
+             let w16 = match try_to_asn16_path hs with Ok w' -> hex_of_bytes w' | Err -> "E" | Panic -> "PANIC" in
+             Printf.printf "WIRE %s hops=%s back=%s backhops=%s pre=%s w16=%s\n" id (hops_s hs) back backhops pre w16
            | Err -> Printf.printf "WIRE %s E\n" id
            | Panic -> Printf.printf "WIRE %s PANIC\n" id)
         | ["EQ"; id; h16; h32] ->
